@@ -2,9 +2,11 @@ package props
 
 import (
 	"fmt"
+	"os"
 	"path/filepath"
 	"strings"
 
+	"github.com/goreleaser/nfpm/v2"
 	"github.com/goreleaser/nfpm/v2/files"
 	"verif/harness/internal/fsoracle"
 	"verif/harness/internal/report"
@@ -50,7 +52,101 @@ func runC05(c *Ctx) error {
 	if err := c05Small(c, tree); err != nil {
 		return err
 	}
+	if err := c05DebChangelogSite(c, tree); err != nil {
+		return err
+	}
 	return c05Random(c, tree)
+}
+
+// c05DebChangelogSite: planning as it happens inside deb.Package, where the generated changelog is one more entry
+// of the plan (type "debian changelog" at /usr/share/doc/<name>/changelog.Debian.gz).  What the model of planning
+// says about the configured contents plus that entry – a plan, or a collision – must be what Package does: an entry
+// of the user at the changelog's place must not be accepted silently, nor may the changelog displace it.
+func c05DebChangelogSite(c *Ctx, t *SrcTree) error {
+	fam := c.Rep.Family("deb-changelog-site", "exhaustive: deb.Package with a changelog configured and one user entry {file, config, config|noreplace, symlink, dir, doc (rpm only), ghost (rpm only), file tagged packager rpm, file tagged packager deb} at {the changelog's destination, the same with a trailing slash, an unclean spelling of it, its parent directory, an unrelated path} plus the same without a changelog: Package fails with a collision exactly when the model of planning (files.PrepareForPackager over the contents plus the changelog entry) reports one, and when it succeeds the data tar holds exactly one member of that name; non-trivial = changelog configured")
+	fam.Exhaustive = true
+	clog := filepath.Join(c.Tmp, "c05-changelog.yaml")
+	if err := os.WriteFile(clog, []byte(c34Changelog), 0o644); err != nil {
+		return err
+	}
+	name := "verifpkg"
+	dst := "/usr/share/doc/" + name + "/changelog.Debian.gz"
+	type ent struct{ typ, packager string }
+	ents := []ent{{"", ""}, {"config", ""}, {"config|noreplace", ""}, {"symlink", ""}, {"dir", ""}, {"doc", ""}, {"ghost", ""}, {"", "rpm"}, {"", "deb"}}
+	places := []string{dst, dst + "/", "/usr/share//doc/./" + name + "/changelog.Debian.gz", "/usr/share/doc/" + name, "/opt/unrelated"}
+	for _, withLog := range []bool{true, false} {
+		for _, e := range ents {
+			for _, place := range places {
+				raw := []wire.Content{{Src: t.Root + "/bin/tool", Dst: "/usr/bin/tool"}, {Src: t.Root + "/etc/app.conf", Dst: place, Type: e.typ, Packager: e.packager}}
+				if e.typ == "symlink" {
+					raw[1].Src = "/usr/bin/tool"
+				}
+				if e.typ == "dir" || e.typ == "ghost" {
+					raw[1].Src = ""
+				}
+				spec := &PkgSpec{Raw: raw, Umask: 0o022, MTime: 1700000000, Mutate: func(info *nfpm.Info) {
+					if withLog {
+						info.Changelog = clog
+					}
+				}}
+				data, berr := BuildPkg("deb", spec.Info())
+				// the model: plan of the contents plus the changelog entry
+				mraw := append([]wire.Content{}, raw...)
+				if withLog {
+					mraw = append(mraw, wire.Content{Dst: dst, Type: "debian changelog"})
+				}
+				cfg := wire.PlanCfg{Packager: "deb", Umask: 0o022, MTime: 1700000000}
+				a, err := c.D.Ask(wire.PlanReq(cfg, mraw, fsoracle.Build(raw, false)))
+				if err != nil {
+					return err
+				}
+				mcs, merr, perr := wire.ParseContents(a)
+				if perr != nil {
+					return fmt.Errorf("deb-changelog-site: model answer: %v", perr)
+				}
+				key := fmt.Sprintf("%v|%s|%s|%s", withLog, e.typ, e.packager, place)
+				fam.Eval(key, withLog)
+				in := map[string]any{"changelog": withLog, "entry_type": e.typ, "entry_packager": e.packager, "entry_destination": place}
+				switch {
+				case merr != "" && berr == nil:
+					fam.Count("model-collision:package-built")
+					c.Rep.Find(report.Finding{Property: "C05", Family: "deb-changelog-site", Shape: "deb:changelog-site:conflicting-entries-accepted-silently",
+						What:  fmt.Sprintf("the contents plus the generated changelog entry conflict (model of planning: %s), deb.Package nevertheless wrote a package of %d bytes", merr, len(data)),
+						Input: in})
+				case merr == "" && berr != nil:
+					fam.Count("model-plan:package-failed")
+					c.Rep.Disagree(report.Disagreement{Family: "deb-changelog-site", What: "deb.Package fails where the model of planning yields a plan", Input: in, Model: showPlan(mcs, merr), Impl: berr.Error()})
+				case merr != "":
+					fam.Count("collision-reported")
+				default:
+					fam.Count("built")
+					dec, derr := DecodePkg("deb", data)
+					if derr != nil {
+						c.Rep.Note("deb-changelog-site: decode: %v", derr)
+						continue
+					}
+					n := 0
+					for _, m := range dec.Members {
+						if strings.TrimSuffix(m.Name, "/") == "."+dst {
+							n++
+						}
+					}
+					want := 0
+					for _, mc := range mcs {
+						if strings.TrimSuffix(mc.Dst, "/") == dst {
+							want++
+						}
+					}
+					if n != want {
+						c.Rep.Find(report.Finding{Property: "C05", Family: "deb-changelog-site", Shape: "deb:changelog-site:member-count-at-changelog-destination",
+							What:  fmt.Sprintf("the plan holds %d entries at %s, the data tar holds %d members of that name", want, dst, n),
+							Input: in})
+					}
+				}
+			}
+		}
+	}
+	return nil
 }
 
 func c05Path(c *Ctx) error {
